@@ -246,7 +246,13 @@ def worker(blocks):
             continue
         # the same text parsed with a defined-name table whose names are the CONTENTS of its string literals (and a few more
         # that do not occur in it): no operand of the formula is a defined name, the tree must be the same
-        lits = {x for x in literals_of(e) if x}
+        import re as _re
+        bare = _re.sub(r'"(?:[^"]|"")*"', '""', text).upper()
+        lits = {x for x in literals_of(e)
+                if _re.fullmatch(r'[A-Za-z_][A-Za-z0-9_.]*', x)              # something Excel accepts as a name ...
+                and not _re.fullmatch(r'\$?[A-Za-z]{1,3}\$?[0-9]+', x)       # ... that is no cell reference
+                and x.upper() not in ('TRUE', 'FALSE')
+                and x.upper() not in bare}                                  # ... and occurs nowhere outside the literals
         if lits:
             names = {x: 'Sheet1!$C$3' for x in lits}
             names.update({'Rate': 'Sheet1!$C$4', 'total_1': 'Sheet1!$A$1:$B$2'})
